@@ -178,15 +178,23 @@ fn do_flush(q: &Q, f: i64) -> bool {
     let waker = Waker::from(w.clone());
     let mut cx = Context::from_waker(&waker);
     let deadline = Instant::now() + BUDGET;
+    let mut woken_but_pending = 0u32;
     loop {
         if let Poll::Ready(()) = Pin::new(&mut fut).poll(&mut cx) {
             w.log_done();
             return true;
         }
         if w.logged.load(Ordering::SeqCst) {
-            // woken but not ready: the oneshot contract (wake <=> complete) does not hold
-            eprintln!("TOOL-ERROR spurious wake of flush future {f}");
-            std::process::exit(2);
+            // The waker ran. It may have run after the poll above returned Pending, so poll
+            // again: only a future that is still pending AFTER its waker ran contradicts the
+            // oneshot contract (wake <=> complete) this harness relies on.
+            woken_but_pending += 1;
+            if woken_but_pending >= 3 {
+                eprintln!("TOOL-ERROR spurious wake of flush future {f}");
+                std::process::exit(2);
+            }
+            std::thread::yield_now();
+            continue;
         }
         let g = w.woke.lock().unwrap();
         let now = Instant::now();
